@@ -275,7 +275,7 @@ def run_shard(spec, seed, tier):
         for bucket, (case, msg) in first.items():
             res.add_violation(case, msg, bucket)
         return res
-    n, max_ops = (200, 15) if tier == "quick" else (1500, 40)
+    n, max_ops = (200, 15) if tier == "quick" else (800, 40)
     if spec["scheme"] == "CGKO06.SSE2":
         n //= 2
     hyp.search(res, st_case(spec["scheme"], max_ops), body, seed, n)
